@@ -1,5 +1,5 @@
 """Debug driver: tools/dbg.py <contracts module> [name-filter] [budget_s] [float_mode]"""
-import sys, time, signal
+import sys, time, signal, os
 sys.path.insert(0, '/verif'); sys.setrecursionlimit(20000)
 from pyvc import engine
 from pyvc.harness import REGISTRY
@@ -12,6 +12,7 @@ import pyvc.path as P
 for h in REGISTRY:
     if only and only not in h.name: continue
     for case in h.case_list():
+        if os.environ.get('CASE') and os.environ['CASE'] not in repr(case): continue
         orig = P.Explorer.__init__
         def init(self,*a,**k):
             orig(self,*a,**k); self.budget_s = budget
